@@ -8,6 +8,8 @@
 package table
 
 import (
+	"sort"
+
 	enc "github.com/named-data/ndnd/std/encoding"
 )
 
@@ -39,6 +41,7 @@ type FibStrategy interface {
 	FindStrategyEnc(name enc.Name) enc.Name
 	InsertNextHopEnc(name enc.Name, nextHop uint64, cost uint64)
 	ClearNextHopsEnc(name enc.Name)
+	ReplaceNextHopsEnc(name enc.Name, nexthops map[uint64]uint64)
 	RemoveNextHopEnc(name enc.Name, nextHop uint64)
 	GetAllFIBEntries() []FibStrategyEntry
 	SetStrategyEnc(name enc.Name, strategy enc.Name)
@@ -62,4 +65,14 @@ func (e *baseFibStrategyEntry) GetStrategy() enc.Name {
 // GetNexthops gets the nexthops of the specified entry.
 func (e *baseFibStrategyEntry) GetNextHops() []*FibNextHopEntry {
 	return e.nexthops
+}
+
+// sortedNextHops converts a FaceID -> Cost map into a nexthop list ordered by FaceID.
+func sortedNextHops(nexthops map[uint64]uint64) []*FibNextHopEntry {
+	list := make([]*FibNextHopEntry, 0, len(nexthops))
+	for nexthop, cost := range nexthops {
+		list = append(list, &FibNextHopEntry{Nexthop: nexthop, Cost: cost})
+	}
+	sort.Slice(list, func(i, j int) bool { return list[i].Nexthop < list[j].Nexthop })
+	return list
 }
